@@ -25,8 +25,9 @@ def term(c, r, idx, with_cum=True):
     return f"(DC {n0} {qlit(r['t'])} {out} {cum})"
 
 
-def gen_cases(rng, names, stable, n_single, n_mixed, cls, cum_every=3, tmax=30, only=None):
+def gen_cases(rng, names, stable, n_single, n_mixed, cls, cum_every=3, tmax=30, only=None, progeny=None):
     radio = [n for n, s in zip(names, stable) if not s]
+    radio_set = set(radio)
     cases = []
     singles = only if only is not None else (radio if n_single >= len(radio) else rng.sample(radio, n_single))
     for n in singles:
@@ -57,26 +58,58 @@ def gen_cases(rng, names, stable, n_single, n_mixed, cls, cum_every=3, tmax=30, 
         T = float(hl[n][0]) * secs[str(hl[n][1])]
         amt = 10 ** rng.uniform(10, 30)
         texp = rng.uniform(-305, math.log10(amt))
+        if _ % 2 == 1:          # deep tail: what is left is a small NORMAL double
+            amt = 10 ** rng.uniform(27, 30)
+            texp = rng.uniform(-305, -290)
         t = T * (math.log10(amt) - texp) * math.log2(10.0)
         cases.append({"cls": cls, "contents": {n: float(amt).hex()}, "unit": "num", "t": float(t).hex(), "tunit": "s", "kind": "tail"})
-    # history cases: earlier calculations and in-place changes on the same object before the measured decay
-    nhist = max(2, len(cases) // 8)
+    # history cases: a random interleaving of earlier calculations and in-place changes on the SAME object before
+    # the measured call (every in-place entry point: add, subtract, remove by name / id / list)
+    nhist = max(3, len(cases) // 5)
+    idmap = None
     for _ in range(nhist):
-        a, b, c3 = rng.sample(radio, 3)
-        pre = [[rng.choice(["decay", "cumulative_decays", "series", "fractions"]), float(10 ** rng.uniform(0, 8)).hex()]]
-        r = rng.random()
-        if r < 0.4:
-            pre.append(["add", {b: float(10 ** rng.uniform(5, 20)).hex()}])
-        elif r < 0.6:
-            pre += [["add", {b: float(10 ** rng.uniform(5, 20)).hex()}], ["remove", a]]
-        elif r < 0.8:
-            pre += [["add", {b: float(1e10).hex(), c3: float(1e12).hex()}], ["remove_list", [b]]]
-        else:
-            pre += [["add", {b: float(1e10).hex()}], ["decay", float(1e3).hex()], ["subtract", {a: float(1.0).hex()}]]
-        cases.append({"cls": cls, "contents": {a: float(10 ** rng.uniform(8, 20)).hex()}, "unit": "num",
+        pool = rng.sample(radio, 5)
+        keys = [pool[0]]
+        cont0 = {pool[0]: float(10 ** rng.uniform(8, 20)).hex()}
+        pre = []
+        for step in range(rng.randint(2, 7)):
+            if step % 2 == 0 or rng.random() < 0.3:
+                pre.append([rng.choice(["decay", "decay", "cumulative_decays", "series", "fractions"]), float(10 ** rng.uniform(0, 8)).hex()])
+                continue
+            r = rng.random()
+            fresh = [x for x in pool if x not in keys]
+            if (r < 0.45 or len(keys) < 2) and fresh:
+                new = rng.sample(fresh, rng.randint(1, min(2, len(fresh))))
+                pre.append(["add", {x: float(10 ** rng.uniform(5, 20)).hex() for x in new}])
+                keys += new
+            elif r < 0.6 and len(keys) >= 2:
+                x = rng.choice(keys); keys.remove(x)
+                pre.append([rng.choice(["remove", "remove_id", "remove_nuclide"]), x])
+            elif r < 0.8 and len(keys) >= 2:
+                xs = rng.sample(keys, rng.randint(1, len(keys) - 1))
+                for x in xs:
+                    keys.remove(x)
+                pre.append(["remove_list", xs])
+            else:
+                pre.append(["subtract", {rng.choice(keys): float(1.0).hex()}])
+        cases.append({"cls": cls, "contents": cont0, "unit": "num",
                       "t": float(10 ** rng.uniform(0, 9)).hex(), "tunit": "s", "pre": pre, "kind": "history"})
+    # closed-chain cases: the inventory holds EVERY radioactive member of a decay chain (in-growth between members of the inventory)
+    if progeny is None:
+        progeny = {str(n): [str(x) for x in pr] for n, pr in zip(dd["nuclides"], dd["progeny"])}
+    if True:
+        for _ in range(max(2, len(cases) // 10)):
+            for _try in range(20):
+                root = rng.choice(radio)
+                members = [x for x in closure_of(names, progeny, [root]) if x in radio_set]
+                if 2 <= len(members) <= 8:
+                    break
+            else:
+                continue
+            cases.append({"cls": cls, "contents": {x: float(round(10 ** rng.uniform(5, 20), 3)).hex() for x in members}, "unit": "num",
+                          "t": float(round(10 ** rng.uniform(0, 9), 3)).hex(), "tunit": "s", "kind": "closed"})
     for i, c in enumerate(cases):
-        c["cum"] = (i % cum_every == 0)
+        c["cum"] = (i % cum_every == 0) or c.get("kind") in ("history", "closed")
         c["zero"] = (i % 10 == 0) and "pre" not in c
     return cases
 
@@ -193,7 +226,7 @@ def flow_stream(rng, ncases, cls, tag, streams, viol, samples):
         cases.append({"cls": cls, "contents": cont, "unit": "num", "t": float(sum(float.fromhex(s) for s in split)).hex(),
                       "tunit": rng.choice(["s", "h", "d", "y"]), "split": split, "lin": {"a": a, "contents": other}, "zero": True})
     impl = U.run_impl("impl_decay.py", cases, timeout=6000)
-    terms_split, terms_lin, tmap, bad_prop = [], [], [], []
+    terms_split, terms_lin, tmap, bad_prop, lmap = [], [], [], [], []
     for kk, (c, r) in enumerate(zip(cases, impl)):
         if "err" in r:
             bad_prop.append((kk, "raised " + r["err"]))
@@ -209,34 +242,73 @@ def flow_stream(rng, ncases, cls, tag, streams, viol, samples):
             tmap.append(kk)
         if all(v is not None for v in r["lin_n0"].values()) and r["t"] is not None:
             r3 = dict(r, n0=r["lin_n0"], out=r["lin_sum"])
-            terms_lin.append(term(c, r3, idx, with_cum=False))
+            terms_lin.append(term(c, r3, idx, with_cum=False)); lmap.append((kk, "a*X.decay(t) + Y.decay(t)"))
             r4 = dict(r, n0=r["lin_n0"], out=r["lin_comb"])
-            terms_lin.append(term(c, r4, idx, with_cum=False))
+            terms_lin.append(term(c, r4, idx, with_cum=False)); lmap.append((kk, "(a*X + Y).decay(t)"))
+        if all(v is not None for v in r["inpl_n0"].values()) and r["t"] is not None:
+            r5 = dict(r, n0=r["inpl_n0"], out=r["inpl_out"])
+            terms_lin.append(term(c, r5, idx, with_cum=False)); lmap.append((kk, "X.decay(t); X.cumulative_decays(t); X.add(Y); X.decay(t)"))
     bad = []
     errs = []
     for k in (2, 3, 4):
         ts = [t for kq, t in terms_split if kq == k]
         chk = f"{'check_hp_decay_k' if hp else 'check_float_decay_k'} {k}%positive Default"
         b, e = Q.run_cases(f"{tag}_s{k}", PRE, "dcase", ts, chk, shard=6 if not hp else 2, timeout=3000)
-        bad += [("split", k, i) for i in b]
+        ks = [j for j, (kq, _) in enumerate(terms_split) if kq == k]
+        bad += [("split", k, i, (tmap[ks[i]], "decay(t1)...decay(tk)")) for i in b]
         errs += e
     chk = f"{'check_hp_decay_k' if hp else 'check_float_decay_k'} 3%positive Default"
     b, e = Q.run_cases(f"{tag}_lin", PRE, "dcase", terms_lin, chk, shard=6 if not hp else 2, timeout=3000)
-    bad += [("linear", 3, i) for i in b]
+    bad += [("linear", 3, i, lmap[i]) for i in b]
     errs += e
     streams[tag] = {"cases": len(cases), "split_checked": len(terms_split), "linear_checked": len(terms_lin),
                     "outside_bound": len(bad), "impl_property_failures": len(bad_prop), "coq_errors": len(errs),
                     "what": "decay(t1)...decay(tk) (k<=4) vs the exact flow at t1+...+tk; (a*X+Y).decay(t) and a*X.decay(t)+Y.decay(t) "
-                            "vs the exact flow of a*X+Y; bound = k x the single-call bound"}
+                            "vs the exact flow of a*X+Y; X.add(Y) in place after earlier calculations on X, then decay(t), vs the exact flow of X+Y; bound = k x the single-call bound"}
     for kk, why in bad_prop[:3]:
         viol.append({"name": f"{tag}-{len(viol)}", "found_input": True, "key": f"{tag}:{why[:50]}",
                      "payload": {"fails": why, "input": cases[kk], "entry": f"{cls}.decay composition"}})
-    for kind, k, i in bad[:3]:
+    for kind, k, i, (kk, how) in bad[:3]:
         viol.append({"name": f"{tag}-{kind}-{i}", "found_input": True, "key": f"{tag}-{kind}:{i}",
-                     "payload": {"fails": f"{kind} composition (k={k}) lies outside k x the bound around the exact flow",
-                                 "case_index_in_stream": i, "seed_hint": "re-run the stream with the same VERIF_SEED",
+                     "payload": {"fails": f"{kind} composition (k={k}) lies outside k x the bound around the exact flow: {how}",
+                                 "input": cases[kk], "observed": {q: impl[kk].get(q) for q in ("out", "split_out", "lin_comb", "lin_sum", "inpl_out")},
+                                 "case_index_in_stream": i,
                                  "entry": f"{cls}.decay composition"}})
     if errs:
         viol.append({"name": f"{tag}-coq", "found_input": False, "key": f"{tag}-coq",
                      "payload": {"broken": "reference evaluation failed in Coq", "errors": errs[:2]}})
     samples.append({"case": cases[0]})
+
+
+def data_witness_probe(pid, classes=("Inventory", "InventoryHP")):
+    """Failing-input search when the data certificate no longer checks: the certificate's own witnesses (indices named by
+    Model/FindBad.v) are turned into requests against the implementation whose expectation comes from the half-life TABLE
+    alone: decaying a lone radionuclide for its listed half-life leaves half of it (float: 16 ulp, high precision: 1e-13)."""
+    import re, sys, os
+    sys.path.insert(0, os.path.join(C.TOOLS, "props"))
+    import C04
+    res, detail, rc = C04.find_bad()
+    failing = [k for k, v in res.items() if v == "false"]
+    idxs = sorted({int(x) for x in re.findall(r"(\d+)%N", detail)})
+    names, stable = U.dataset_names()
+    cand = [names[i] for i in idxs if i < len(names) and not stable[i]][:10]
+    if not cand:
+        return []
+    found = []
+    req = {"cases": [], "units": ["s", "y", "d"], "halving": cand if "Inventory" in classes else [],
+           "hp": cand if "InventoryHP" in classes else [], "hp_units": ["s", "y", "d"], "bad_units": []}
+    impl = U.run_impl("impl_time.py", req, timeout=3000)
+    for cls, rows, tol in (("Inventory", impl["halving"], 16 * 2 ** -53), ("InventoryHP", impl["hp"], 1e-13)):
+        for row in rows:
+            for u, v in row["left"].items():
+                x = float.fromhex(v)
+                if abs(x - 0.5) > tol * 0.5 + (0 if cls == "InventoryHP" else tol):
+                    found.append({"name": f"data-halving-{len(found)}", "key": f"data-halving:{cls}:{row['name']}:{u}",
+                                  "fails": f"{cls}({{'{row['name']}': 1.0}}, 'num').decay(half_life('{row['name']}', '{u}'), '{u}') leaves {x!r} of the "
+                                           f"nuclide, not 0.5: the data the calculation uses disagree with the listed half-life",
+                                  "input": {"cls": cls, "nuclide": row["name"], "unit": u},
+                                  "failing_certificate_components": failing, "witness_indices": idxs[:20]})
+                    break
+            if len(found) >= 3:
+                return found
+    return found
